@@ -263,6 +263,10 @@ where
         }
         self.storage.batch_set(updates).await?;
 
+        // the new epoch record is now pending in the transaction log (verification hook: no-op unless installed)
+        #[cfg(facebook_akd_verif)]
+        crate::verif_hooks::sched_point("publish:epoch_record_pending").await;
+
         // Compute the new root hash while the transaction is still open (the root node is served
         // from the transaction log), so that nothing can fail after the commit has taken effect
         let root_hash = match current_azks
